@@ -93,7 +93,8 @@ def main():
         dst = VERIF / "seeded" / args.keep
         dst.mkdir(parents=True, exist_ok=True)
         for f in ("patch.diff", "demo.py"):
-            shutil.copyfile(seed / f, dst / f)
+            if (seed / f).resolve() != (dst / f).resolve():
+                shutil.copyfile(seed / f, dst / f)
         if "suite_ok" not in out and (dst / "meta.json").exists():
             # --skip-suite on a re-evaluation: the patch is unchanged, keep the recorded suite result
             prev = json.loads((dst / "meta.json").read_text()).get("evaluation", {})
